@@ -541,6 +541,13 @@ func taskScheduleHandler() {
 			}
 			t := e.Value.(*Task) //nolint:forcetypeassert // Can only be *Task.
 
+			// The timer may have been set for a task that has since been
+			// executed or moved: only process the first task if it is due.
+			if time.Until(t.executeAt) > 0 {
+				scheduleLock.Unlock()
+				continue
+			}
+
 			// process Task
 			if t.overtime {
 				// already queued and maxDelay reached
